@@ -25,8 +25,12 @@ func systemLevelTimeouts(r *Run) {
 	memCfg := &oidcv1.OIDCConfig{AbsoluteSessionTimeout: 2, IdleSessionTimeout: 1}
 	redCfg := &oidcv1.OIDCConfig{AbsoluteSessionTimeout: 100, IdleSessionTimeout: 40,
 		RedisSessionStoreConfig: &oidcv1.RedisConfig{ServerUri: "redis://" + mr.Addr()}}
+	// a second memory-backed filter that configures no limits of its own stands behind the first: the (shared) memory
+	// store is built for the first filter, whose own limits must govern its sessions whatever later filters say
+	mem2Cfg := &oidcv1.OIDCConfig{ClientId: "no-limits"}
 	cfg := &configv1.Config{Chains: []*configv1.FilterChain{
 		{Name: "m", Filters: []*configv1.Filter{{Type: &configv1.Filter_Oidc{Oidc: memCfg}}}},
+		{Name: "m2", Filters: []*configv1.Filter{{Type: &configv1.Filter_Oidc{Oidc: mem2Cfg}}}},
 		{Name: "r", Filters: []*configv1.Filter{{Type: &configv1.Filter_Oidc{Oidc: redCfg}}}},
 	}}
 	f := oidc.NewSessionStoreFactory(cfg)
